@@ -38,23 +38,16 @@ def check(ctx):
 
     # real time: the Lean acceptor's verdict on what was observed
     pending, hard = [], []
-    lost_completion = 0
     with_slack = 0
     for c, g, l in rt:
         if l.split()[2:3] == ['accept=t']:
             continue
         why = _fields(l).get('why', '?').split('(')[0]
-        cf = _fields(c)
         if why == 'quota' and _fields(l).get('withslack') == 't':
             # rejected with the bound of the statement, accepted once the bound is given the slack 2*jit that the
             # harness measured on its own ticker during this very run (windows shorter than w by at most jit)
             with_slack += 1
         elif why == 'quota':
-            pending.append((c, g, l))
-        elif why == 'terminal' and cf.get('end') == 'C' and cf.get('term') == '-':
-            # the known finding (completion lost by a tick inside the completion) seen under real concurrency;
-            # re-observed: a limiter that never completes is rejected every time
-            lost_completion += 1
             pending.append((c, g, l))
         else:
             hard.append((c, g, l))
@@ -105,8 +98,8 @@ def check(ctx):
              'ulule: real operator over a deterministic history-driven store (limit m, epoch p calls, optional failing call), inputs exhaustive to length 4/6 over 2 keys x m{0,1,2} x p{1,3} x failAt{-,0,2} x ending x {sync,hot} + seeded: output and store answers EQUAL to the model. '
              'native-rt: the real NewRateLimiter (its own Interval), quota 0..3, window 2..5 ms, 1..3 keys, profiles burst/steady/sparse/dense, sync and async source, endings C/E/none; '
              'the observed (key,value,timestamp) trace is evaluated by the Lean acceptor (per-key subsequence, quota bound n*(floor(L/w)+2) on every span, first-window items of every key passed, terminal); '
-             f'an observation rejected on the quota clause (stalled ticker) or showing the known lost completion is re-observed up to {ATTEMPTS - 1} more times and reported if rejected every time; any other rejection is reported at once',
+             f'an observation rejected on the quota clause (stalled ticker) is re-observed up to {ATTEMPTS - 1} more times and reported if rejected every time; any other rejection is reported at once',
         assumptions=['real-time tie = acceptance of observed traces (not equality): a limiter that lets through fewer items than the model is accepted as far as order/quota/terminal are concerned; the "fresh" clause (first-window items of every key pass) is the only lower bound checked in real time',
                      'the quota bound of the statement is sound for windows of length >= w; a ticker served late (process stall, timer granularity) yields real windows shorter than w and can make a correct limiter exceed it. An observation rejected with slack 0 is accepted if the acceptor accepts it with slack 2*jit, jit = the largest deviation from w between deliveries of a ticker the harness runs next to the limiter (accepted_with_measured_slack; acceptor_sound holds for every slack); otherwise it is re-observed (quota_retries)',
                      'time.Ticker fires no earlier than asked (used by the fresh clause)'],
-        extra={'realtime_cases': len(rt), 'accepted_with_measured_slack': with_slack, 'quota_retries': retried, 'retry_reasons': reasons, 'lost_completion_observed': lost_completion, 'rejected_after_retries': len(pending), 'rejected_at_once': len(hard)})
+        extra={'realtime_cases': len(rt), 'accepted_with_measured_slack': with_slack, 'quota_retries': retried, 'retry_reasons': reasons, 'rejected_after_retries': len(pending), 'rejected_at_once': len(hard)})
